@@ -95,10 +95,19 @@ func (p *uPacketPacker) PackCoalescedPacket(onlyAck bool, maxSize protocol.ByteC
 			if budget := hdrLen + cryptoFrame; budget > 0 && budget < initialMaxSize {
 				initialMaxSize = budget
 			}
-		} else if rf, ok := p.uSpec.InitialPacketSpec.FrameBuilder.(*QUICRandomFrames); ok && rf.Length > 0 && rf.MinPADDING >= 1 {
-			const paddingReserve = 16 // leave at least this many bytes for PADDING frames
-			if budget := hdrLen + protocol.ByteCount(rf.Length) - paddingReserve; budget > 0 && budget < initialMaxSize {
-				initialMaxSize = budget
+		} else if rf := randomFramesForDatagram(p.uSpec.InitialPacketSpec.FrameBuilder, p.initialDatagramIdx); rf != nil && rf.Length > 0 && rf.MinPADDING >= 1 {
+			// Pop only as much CRYPTO data as the builder can re-frame within Length for every
+			// draw of its frame counts. A fixed reserve of 16 bytes was less than the builder
+			// needs as soon as it draws more than a few CRYPTO or PING frames (each CRYPTO
+			// frame has its own type, offset and length), so the frames overshot Length — and
+			// with it the datagram its intended size and even the maximum packet size.
+			off := uint64(p.initialStream.writeOffset)
+			if n := rf.maxCryptoData(off); n > 0 {
+				cryptoFrame := 1 + protocol.ByteCount(quicvarint.Len(off)) +
+					protocol.ByteCount(quicvarint.Len(uint64(n))) + protocol.ByteCount(n) // type + offset + length + data
+				if budget := hdrLen + cryptoFrame; budget > 0 && budget < initialMaxSize {
+					initialMaxSize = budget
+				}
 			}
 		}
 		initialHdr, initialPayload = p.maybeGetCryptoPacket(
